@@ -315,7 +315,8 @@ META = {
         level_note=TB + " float-as-real in the deductive part; the float-vs-rational question is bounded only.",
         explanation="Deductive: Bar.__init__ (30 keys x any meter: own entry list, refusals), set_meter, is_full, space_left, "
                     "place_notes (5 argument shapes incl. the empty list), place_rest, '+', remove_last_entry, place_notes_at, "
-                    "__getitem__, __setitem__ (a container; a list of two names), empty, __len__, value_left. Bounded: bounded/drivers/C13.py.",
+                    "__getitem__, __setitem__ (a container; a list of two names), empty, __len__, value_left, __eq__ (entry by entry, "
+                    "bars of 0..2 entries). Bounded: bounded/drivers/C13.py.",
     ),
     "C14": dict(
         claimed=True, level="other",
@@ -335,7 +336,7 @@ META = {
         explanation="Deductive: Track.add_notes (2 item kinds), add_bar, __len__, Composition.add_track / __len__ / empty / set_title / "
                     "set_author / reset / __init__ / __getitem__ / __setitem__ / '+', Track.__init__ / __getitem__ / __setitem__ / '+' / test_integrity, "
                     "Instrument.note_in_range / can_play_notes / notes_in_range / set_range, Guitar.can_play_notes, "
-                    "NoteContainer.__eq__. Bounded: bounded/drivers/C14.py (166k cases quick). Repaired in /repo: "
+                    "NoteContainer.__eq__, Bar / Track / Composition __eq__ (element by element over the level below; small shapes). Bounded: bounded/drivers/C14.py (166k cases quick). Repaired in /repo: "
                     "rest with instrument, Guitar.can_play_notes, Composition.__eq__, container == rest.",
     ),
     "C15": dict(
